@@ -88,13 +88,25 @@ pub fn run(ctx: &mut Ctx) {
 
 fn one(ctx: &mut Ctx, case: u64, rng: &mut Rng, scratch: &Scratch) {
     let mut path = scratch.path("mig");
-    let unis: Vec<Universe> = (1..=rng.range(1, 3) as u8).map(|i| Universe::new(rng, i)).collect();
+    // One file in twenty-five holds a document with more than a thousand records next to small ones
+    // (added after seeded change agent-C18-9): a rebuild that works in batches has to get past the
+    // first batch and past the end of the first document.
+    let big = if rng.chance(1, 25) { Some(rng.below(3)) } else { None };
+    let n_docs = if big.is_some() { 3 } else { rng.range(1, 3) };
+    let unis: Vec<Universe> = (1..=n_docs as u8).map(|i| Universe::new(rng, i)).collect();
     {
         let mut store = Store::persistent(&path).expect("create");
-        for u in &unis {
+        for (ui, u) in unis.iter().enumerate() {
             store.import_namespace(Capability::Write(u.ns.clone())).unwrap();
             let n = rng.range(1, 14);
             let mut es = u.entries(rng, n, 3);
+            if big == Some(ui) {
+                let extra = 1025 + rng.below(80);
+                for i in 0..extra {
+                    es.push(u.entry(i % u.authors.len(), &[b'L', (i / 256) as u8, (i % 256) as u8, b'x'], u.t0 + 1 + (i % 3) as u64, Some(i % 4)));
+                }
+                ctx.count("files_with_a_document_of_more_than_1024_records", 1);
+            }
             if rng.chance(1, 2) {
                 es.sort_by_key(|e| e.timestamp());
             }
